@@ -98,7 +98,7 @@ func buildQuery(u *Unit, o *Oblig, extra []string) string {
 			for n := range u.g.cs.UFuncs {
 				if strings.Contains(t, n) {
 					t = replaceWord(t, n, "|uf!"+n+"|")
-					if strings.Contains(text, "|uf!"+n+"|") {
+					if strings.Contains(text, "(|uf!"+n+"| ") {
 						used = true
 					}
 				}
@@ -151,28 +151,25 @@ func solveOne(j *job, dir string, timeout time.Duration) {
 	os.WriteFile(file, []byte(q), 0o644)
 	res := &SolveResult{File: file, Size: len(q)}
 	j.res = res
-	// stage 1: z3-new alone for a short while (most obligations finish in milliseconds)
 	t0 := time.Now()
-	st, out, secs := runSolver("z3-new", file, 2*time.Second)
-	res.Tried = append(res.Tried, fmt.Sprintf("z3-new:%s:%.2fs", st, secs))
-	if st == "unsat" || st == "sat" {
-		res.Status, res.Solver, res.Output, res.Secs = st, "z3-new", out, time.Since(t0).Seconds()
-		return
-	}
-	// stage 2: race the three solvers with the full timeout
 	type ans struct {
 		solver, st, out string
 		secs            float64
 	}
+	if j.o.Kind == "cover" && timeout > 3*time.Second {
+		timeout = 3 * time.Second // covers with quantified assumptions may stay unknown; that is tolerated
+	}
 	ch := make(chan ans, 3)
 	ctx, cancel := context.WithCancel(context.Background())
 	defer cancel()
-	for _, s := range []string{"z3-new", "cvc5", "z3"} {
+	solvers := []string{"z3-new", "cvc5", "z3"}
+	for _, s := range solvers {
 		go func(s string) {
 			st, out, secs := runSolverCtx(ctx, s, file, timeout)
 			ch <- ans{s, st, out, secs}
 		}(s)
 	}
+	out := ""
 	lastOut := out
 	for i := 0; i < 3; i++ {
 		a := <-ch
